@@ -720,7 +720,7 @@ pub fn run(ctx: &Ctx, invariants_mode: bool) -> Outcome {
     let n_random = if invariants_mode { ctx.size(100_000, 10_000_000) } else { ctx.size(20_000, 1_000_000) };
     let rand_shards = 32usize;
     let nj = jobs.len();
-    let report = run_sharded(ctx, nj + rand_shards, |shard, rep| {
+    let mut report = run_sharded(ctx, nj + rand_shards, |shard, rep| {
         if shard < nj {
             let j = &jobs[shard];
             let s = &setups[j.setup];
@@ -744,6 +744,12 @@ pub fn run(ctx: &Ctx, invariants_mode: bool) -> Outcome {
             }
         }
     });
+    {
+        // the same calls from a thread-local destructor while a thread exits (see exitprobe.rs)
+        let mut at_exit = Report::new();
+        crate::exitprobe::check("controller", if invariants_mode { "trace_invariants" } else { "lockstep_refctl" }, &mut at_exit);
+        report.merge(at_exit);
+    }
 
     let n_positions = report.set_len("positions");
     let cells = report.set_len("position_x_symbol");
